@@ -15,12 +15,12 @@ from lib import impl
 from lib.core import cN, cbool, cbytes, clist, copt, ctor, vB, vL, vN, vopt
 
 PROPERTY = "C07"
-GEN = ["check"]
+GEN = ["check", "types", "state"]   # Gen/Check.v (own unit), Gen/PyTypes.v + Gen/State.v (State._get, C13's unit)
 RULE = (
     "structured product: tamper pattern {append, truncate, same-length rewrite with new mtime, replace by "
     "another object's bytes (rename, new inode), empty} and intact controls {none, touch, chmod-only} x state "
     "entry {StateNoop, wiped, warm (re-hashed after the change), stale (row from before the change)} x store "
-    "class {Local, Base} x query {check, oids_exist, checkout, add(verify=True) with an honest and a corrupt "
+    "class {Local, Base} x query {check, oids_exist, checkout without and with a state, add(verify=True) with an honest and a corrupt "
     "source}; plus seeded random histories (6-14 steps) over add/check/oids_exist/checkout/tamper (also "
     "keeping 0o444, other modes, mtime-restoring)/plant under a wrong name/delete/hash/foreign state row/"
     "wipe, ids with and without the .dir suffix. A case is non-trivial when a query met a mismatching "
@@ -351,16 +351,23 @@ def run_case(ctx, case):
                             fail("C07:intact-rejected:oids_exist", f"oids_exist dropped intact object {o}")
             elif kind == "checkout":
                 o = oid_of(op[1])
+                with_state = len(op) > 2 and bool(op[2])
                 R.known.add(o)
                 pre = R.snap()
                 R.wsn += 1
                 dest = os.path.join(R.ws, f"out{R.wsn}")
                 obj = HashFile(None, None, HashInfo("md5", o))
                 try:
-                    checkout(dest, localfs, obj, R.odb, state=None, quiet=True)
+                    checkout(dest, localfs, obj, R.odb, state=R.state if with_state else None, quiet=True)
                     code = 0
                 except Exception as exc:  # noqa: BLE001
                     code = exc_code(exc)
+                    if with_state and code == 2:
+                        # with a state, a single-file target whose source is gone fails in _save_link
+                        # (stat of the never-created path) before CheckoutError is raised: a refusal
+                        # with another exception class; nothing is materialised (checked below)
+                        tags.add("checkout:refused-as-FileNotFoundError")
+                        code = 5
                 post = R.snap()
                 got = None
                 if os.path.lexists(dest):
@@ -497,7 +504,7 @@ def product_cases():
     for cls in ("local", "base"):
         for pattern, mode in changes:
             for entry in ("noop", "wiped", "warm", "stale"):
-                for query in ("check", "exist", "checkout", "addverify"):
+                for query in ("check", "exist", "checkout", "checkoutst", "addverify"):
                     ops = [["add", None, [[T, 0], [B, 1]]]]
                     if pattern != "none":
                         ops.append(["tamper", T, pattern, mode, 3])
@@ -511,6 +518,8 @@ def product_cases():
                         ops += [["exist", [B, T, [-1, ""]]], ["exist", [T]]]
                     elif query == "checkout":
                         ops += [["checkout", T], ["checkout", B]]
+                    elif query == "checkoutst":
+                        ops += [["checkout", T, True], ["checkout", B, True], ["check", B]]
                     else:
                         ops += [["add", True, [[T, 0], [O, 4]]], ["check", T]]
                     out.append({"cls": cls, "state": entry != "noop", "verify": False, "ops": ops,
@@ -542,7 +551,7 @@ def random_case(rng):
         elif r < 0.42:
             ops.append(["exist", [rng.choice(refs + [[-1, ""]]) for _ in range(rng.randint(1, 4))]])
         elif r < 0.52:
-            ops.append(["checkout", [ref[0], ""]])
+            ops.append(["checkout", [ref[0], ""], rng.random() < 0.5])
         elif r < 0.74:
             pat = rng.choice(["append", "truncate", "rewrite", "replace", "empty", "touch", "chmod", "rewrite", "restore"])
             mode = rng.choice([0o644, 0o644, 0o644, None, 0o444, 0o600, 0o664, 0o400])
